@@ -29,6 +29,7 @@ def run(ctx, build):
     # designed: a grid whose HDF5 chunks line up neither with the position nor with the spectroscopic grid
     lays.insert(0, gen.Layout([7, 3], [0, 1], [3, 2], [0, 1], dtype='f8', vkind=2))
     cases, meta = [], []
+    vcases, vmeta = [], []
     hist = {'datasets': 0, 'reductions': 0, 'functions': {}, 'reduced': {'some_pos': 0, 'all_pos': 0, 'some_spec': 0, 'all_spec': 0, 'both_sides': 0},
             'axes_left': {}, 'written': 0, 'raised_on_write': {}, 'in_memory_only': 0}
     distinct = set()
@@ -154,6 +155,14 @@ def run(ctx, build):
                                         problems.append(('reduced_side_values_not_the_original_unit_values', '%s %s' % (side, lab)))
                                 else:
                                     lab_ids.append((kp if axis == 0 else kp + ks))
+                            # the values matrix of the rebuilt side against the model (spectroscopic-shaped, dyadic values x 4)
+                            src_hv = f[main.attrs['Position_Values' if axis == 0 else 'Spectroscopic_Values']]
+                            s_i, s_v = (src_hi[()].T, src_hv[()].T) if axis == 0 else (src_hi[()], src_hv[()])
+                            n_v = vals.T if axis == 0 else vals
+                            z4 = lambda m: [[int(round(float(x) * 4)) for x in row] for row in m]
+                            vcases.append(cpair(clist([[int(x) for x in row] for row in s_i], lambda r: clist(r, cnat)), clist(z4(s_v), lambda r: clist(r, cZ)),
+                                                clist([names.index(l) for l in red_names], cnat), clist(z4(n_v), lambda r: clist(r, cZ))))
+                            vmeta.append(dict(desc, rebuilt_side=side))
                             imat = [[int(x) for x in row] for row in inds]
                             sides.append('(Some %s)' % cpair(clist(lab_ids, cnat), clist(imat, lambda r: clist(r, cnat))))
                         data = nm[()]
@@ -207,9 +216,10 @@ def run(ctx, build):
                 if len(out.samples) < 4 and to_file:
                     out.samples.append(dict(desc, raised=repr(exc)[:120] if exc else None))
     bad, err = common.coq_eval_cases(ctx, HEADER, cases, 'check12', case_type='case12', per_file=40)
-    out.corr_error = err
-    out.disagreements = [meta[i] for i in bad]
-    out.evaluations = len(cases)
+    bad2, err2 = common.coq_eval_cases(ctx, HEADER, vcases, 'check12v', case_type='case12v', per_file=150, tag='vals')
+    out.corr_error = err or err2
+    out.disagreements = [meta[i] for i in bad] + [vmeta[i] for i in bad2]
+    out.evaluations = len(cases) + len(vcases)
     out.distinct_nontrivial = len(distinct)
     out.rule = ('generator datasets in every storage order (1-3 dimensions per side, 3 dtypes); random non-empty subsets of the dimension names plus "all position" '
                 'and "all spectroscopic"; sum / max / min / mean / std; in memory and written back; wrappers with sort_dims on and off; oracle: returned array '
